@@ -12,7 +12,7 @@ FUNCTIONS = ['Samples.burnthin', 'JointSamples.burnthin', 'Samples.mean/median/v
 BOUNDS = {'dims': '1..3', 'Ns': '1..5 (quick) / 1..6', 'burnthin': 'all (Nb, Nt) with 0 <= Nb <= Ns+1, 1 <= Nt <= Ns+1; chained calls of length 2',
           'statistics': 'Ns <= 4, credibility levels {95, 90, 50}', 'symbolic': 'every stored value is a distinct symbol'}
 OUTSIDE = ['arviz internals', "numpy's percentile interpolation rule (taken as documented: linear)"]
-ASSUMPTIONS = ['numpy.median / numpy.percentile are replaced by their definition over order statistics (min/max terms)']
+ASSUMPTIONS = ['numpy.median / numpy.percentile are replaced by their definition over order statistics (min/max terms); with overwrite_input=True the stub also overwrites the input with its order statistics (numpy documents the input as modified/undefined then)']
 
 
 class _Rec:
@@ -128,6 +128,7 @@ def run(cfg, c):
     if kind == 'stats':
         d, Ns = cfg['d'], cfg['Ns']
         arr = cm.boxed(c, c.reals('s', d, Ns), 16)
+        snapshot = arr.copy()
         smp = S(arr)
         mean = [sym_sum(arr[i]) / Ns for i in range(d)]
         var = [sym_sum([(arr[i, k] - mean[i]) ** 2 for k in range(Ns)]) / Ns for i in range(d)]
@@ -159,6 +160,13 @@ def run(cfg, c):
                               np.array([q(lb), q(100 - lb)], dtype=object if not conc else float), info=fk(cfg, 'ci-def'))
                 mref = srt[n // 2] if n % 2 else (srt[n // 2 - 1] + srt[n // 2]) / 2
                 c.prove_close('median is the row median (row %d)' % i, med[i], mref, info=fk(cfg, 'median-def'))
+        # the statistics are functions of the stored chain and leave it as stored: same array, same entries, same order
+        # (numpy's in-place options - overwrite_input, out= - are modelled by the stubs, see ASSUMPTIONS)
+        c.prove_close('stored chain untouched by the statistics calls', np.asarray(smp.samples, dtype=object if not conc else float), snapshot, info=fk(cfg, 'stats-source'))
+        if Ns >= 2:
+            bt = smp.burnthin(1, 1)
+            c.prove_close('burnthin after the statistics calls still returns stored samples 1, 2, ...', np.asarray(bt.samples, dtype=object if not conc else float), snapshot[:, 1:],
+                          info=fk(cfg, 'stats-then-burnthin'))
         return
     if kind == 'statsfun':
         dt = object if not conc else float
